@@ -29,12 +29,15 @@ def tasks(tier):
         ts.append(Task('verifHarness_C02_G', [n], UF))
     for v in (1, 2):
         for n in sorted(set(rl) | {5, 6, 9, 15, 19}):
-            ts.append(Task('verifHarness_C02_R', [v, n], UF))
+            for cut in (0, 6, 11):
+                ts.append(Task('verifHarness_C02_R', [v, n, cut], UF))
+    for n in (0, 1, 5, 9):
+        ts.append(Task('verifHarness_C02_H', [n], UF))
     return ts
 
 
 def required_reach(tier):
-    return ['C02/L1', 'C02/L2', 'C02/G', 'C02/X', 'C02/R']
+    return ['C02/L1', 'C02/L2', 'C02/G', 'C02/X', 'C02/R', 'C02/H']
 
 
 def bounds(tier):
@@ -42,7 +45,8 @@ def bounds(tier):
     return {'L1_step': 'every (crc state, byte) pair: 2^24, one query on the real body of X25.Write',
             'L2_fold': 'slices of length 0..%d, every split point, arbitrary initial state, real body' % (2 if tier == 'quick' else 3),
             'G_sequence': 'payload lengths %s; every header byte, id < 2^24, CRC_EXTRA and payload byte symbolic; crcstep uninterpreted' % gl,
-            'R_gate': 'payload lengths %s + exact sizes of the 4 harness messages; both versions; every header/payload/checksum byte symbolic' % rl,
+            'R_gate': 'payload lengths %s + exact sizes of the 4 harness messages; both versions; every header/payload/checksum byte symbolic; transport delivering the frame whole or cut after 6 / 11 bytes' % rl,
+            'H_header_damage': 'v2 frame with arbitrary 24-bit id, header bytes, checksum, payload of 0,1,5,9 bytes: decoded only if the wire id is a dialect id and the checksum is the spec value over the wire bytes',
             'dialect': 'harness dialect of 4 message shapes (scalars, string+scalar, extensions, enum array)'}
 
 
